@@ -363,6 +363,7 @@ def rule_sasview_entry(r):
             "sasmodels/modelinfo.py", "ParameterTable._get_defaults", "defaults keyed by expanded names", gd.lineno)
 
 
+from . import extra3 as _x3
 RULES = [
     ("R-C10-data", 6, "data objects: mask polarity and default limits", rule_data),
     ("R-C10-sasview-entry", 9, "SasView entry points route (qx, qy) and hidden parameters correctly", rule_sasview_entry),
@@ -371,11 +372,14 @@ RULES = [
     ("R-C10-suffix", 10, "dispersity suffix/default tables agree", rule_suffix),
     ("R-C10-mask", 11, "data selection index: q range, mask polarity, NaN", rule_mask),
     ("R-C10-hidden", 12, "hidden parameters and common evaluation path", rule_hidden),
+    ("R-C10-setparam", 10, "SasView-style get/set refuse unknown names and sub-names", _x3.rule_c10_setparam),
 ]
 
 
 from . import shared
 RULES = RULES + shared.bundle('C10', ['values', 'stride', 'maxpd', 'density', 'limits', 'unit-sum', 'relative', 'norm'], ['direct_model', 'sasview_model', 'bumps_model', 'weights', 'details'])
+from . import folds as _folds
+RULES = RULES + [_folds.fold_rule('C10')]
 
 
 def run(tier="quick", replay=None):
